@@ -17,6 +17,7 @@
  *   wait <prefix>    (optional)             "cmdline":"<hex /proc/<pid>/cmdline>","environ":"<hex>",
  *   stack            (optional)             "sp":N,"stack":"<hex of memory from the initial sp to the stack top>"}
  *   ids <uid> <gid>  (optional: the child switches to these real/effective ids before the exec)
+ *   ids4 <ruid> <euid> <rgid> <egid>  (optional: real and effective ids that DIFFER - AT_UID/AT_EUID/AT_GID/AT_EGID all distinct)
  *   end
  * The /proc data is read after the exec has happened (CLOEXEC sync pipe) and, if `wait` is given,
  * after the child has printed a line starting with <prefix> (so it is past its start-up code)
@@ -82,7 +83,7 @@ struct kase {
     size_t inlen;
     char *wait;
     int want_stack;
-    long uid, gid;
+    long uid, gid, euid, egid;
 };
 
 static unsigned char out[MAXOUT];
@@ -101,8 +102,8 @@ static void run_case(struct kase *c, FILE *of, long timeout_ms) {
         dup2(pin[0], 0);
         dup2(pout[1], 1);
         close(pin[0]); close(pin[1]); close(pout[0]); close(pout[1]); close(psync[0]);
-        if (c->gid >= 0 && (setgroups(0, NULL) || setresgid((gid_t)c->gid, (gid_t)c->gid, (gid_t)c->gid))) _exit(126);
-        if (c->uid >= 0 && setresuid((uid_t)c->uid, (uid_t)c->uid, (uid_t)c->uid)) _exit(126);
+        if (c->gid >= 0 && (setgroups(0, NULL) || setresgid((gid_t)c->gid, (gid_t)(c->egid >= 0 ? c->egid : c->gid), (gid_t)(c->egid >= 0 ? c->egid : c->gid)))) _exit(126);
+        if (c->uid >= 0 && setresuid((uid_t)c->uid, (uid_t)(c->euid >= 0 ? c->euid : c->uid), (uid_t)(c->euid >= 0 ? c->euid : c->uid))) _exit(126);
         execve(c->bin, c->argv, c->envp);
         int e = errno;
         if (write(psync[1], &e, sizeof e) < 0) {}
@@ -253,7 +254,8 @@ int main(int argc, char **argv) {
         char *sp = strchr(line, ' ');
         char *val = sp ? sp + 1 : line + l;
         if (sp) *sp = 0;
-        if (!strcmp(line, "case")) { memset(&c, 0, sizeof c); c.id = atol(val); c.uid = c.gid = -1; }
+        if (!strcmp(line, "case")) { memset(&c, 0, sizeof c); c.id = atol(val); c.uid = c.gid = c.euid = c.egid = -1; }
+        else if (!strcmp(line, "ids4")) { sscanf(val, "%ld %ld %ld %ld", &c.uid, &c.euid, &c.gid, &c.egid); }
         else if (!strcmp(line, "ids")) { c.uid = atol(val); char *g = strchr(val, ' '); c.gid = g ? atol(g + 1) : -1; }
         else if (!strcmp(line, "bin")) c.bin = strdup(val);
         else if (!strcmp(line, "arg") && c.argc < MAXV) c.argv[c.argc++] = unhex(val, NULL);
